@@ -20,9 +20,8 @@ Theorem next_spec : forall html l c r,
 Proof. exact (fun html l c r => Proofs.next_spec Illegal html l c r not_cp_Illegal). Qed.
 Print Assumptions next_spec.
 
-Theorem booster_decode_spec : forall l c r,
-  booster_decode l = (Cp c, r) <-> exists e, Seq e c /\ l = e ++ r /\ (false = true -> html_safe c).
-Proof. exact (fun l c r => Proofs.next_spec Incomplete false l c r not_cp_Incomplete). Qed.
+Theorem booster_decode_spec : forall l c r, booster_decode l = (Cp c, r) <-> exists e, Seq e c /\ l = e ++ r.
+Proof. exact Proofs7.booster_decode_spec. Qed.
 Print Assumptions booster_decode_spec.
 
 (* corollaries named in the property text: what is accepted is in shortest form (it IS the RFC section 3
